@@ -179,6 +179,14 @@ func cancelFamily(k int, ns []int, thorough bool) []Scenario {
 			mk(n, false, [][]int{nil, nil, nil}, []string{Gate, Err, OK}),
 		)
 	}
+	// enqueue pressure: the caller is still enqueuing runnable jobs when the context is cancelled with a job running
+	for _, coe := range both {
+		out = append(out,
+			withCancel(mk(1, coe, [][]int{nil, nil, nil, nil}, []string{Gate, OK, OK, OK}), false, true),
+			withCancel(mk(1, coe, [][]int{nil, nil, nil, nil, nil}, []string{Gate, OK, OK, OK, OK}), false, true),
+			withCancel(mk(1, coe, [][]int{nil, nil, nil, nil}, []string{CancelGate, OK, OK, OK}), false, false),
+		)
+	}
 	if thorough {
 		for _, n := range ns {
 			for _, coe := range both {
@@ -470,6 +478,24 @@ func Family(prop, tier string) ([]Scenario, error) {
 				if th && k <= 2 {
 					out = append(out, withEmitter(s, 3))
 				}
+			}
+		}
+		// jobs whose context is already done when they reach the ready list, reports in between
+		for _, n := range n12 {
+			for _, coe := range both {
+				a := mk(n, coe, [][]int{nil, nil}, []string{OK, OK})
+				a.Jobs[0].OwnCtx = true
+				out = append(out, withEmitter(a, 1), withEmitter(a, 2))
+				b := mk(n, coe, [][]int{nil, nil, nil}, []string{OK, OK, Gate})
+				b.Jobs[0].OwnCtx = true
+				b.Jobs[1].OwnCtx = true
+				if n == 2 {
+					out = append(out, withEmitter(b, 1))
+				}
+				c := withCancel(mk(n, coe, [][]int{nil, {0}}, []string{OK, OK}), true, false)
+				out = append(out, withEmitter(c, 1))
+				d := mk(n, coe, [][]int{nil, nil}, []string{CancelOK, OK})
+				out = append(out, withEmitter(d, 1))
 			}
 		}
 	case "C12":
